@@ -25,29 +25,21 @@ Print Assumptions C12_command_keys.
    in it (completeness), and it holds nothing but members of MongoDB commands that name a collection, a database or a namespace (confinement:
    nothing else in the line may differ from the run without the flag). *)
 From Spec Require Import NsFields.
+From Proofs Require Import NsFieldsOK.
 Theorem C12_ns_fields_regenerated : ns_fields_ok ns_fields = true.
-Proof. vm_compute. reflexivity. Qed.
+Proof. exact ns_fields_ok_now. Qed.
 Print Assumptions C12_ns_fields_regenerated.
 
 (* hence, for the program as compiled now: the collection named by any declared verb, $db and getMore's collection are pseudonymised where they stand *)
 Theorem C12_declared_verbs : forall tb cs c A rfn cmd i k s,
   nss c = true -> In k ns_required -> nth_error cmd i = Some (k, JStr s) ->
   nth_error (redact_command tb cs c A rfn cmd) i = Some (k, JStr (a_hash A s)).
-Proof.
-  intros tb cs c A rfn cmd i k s Hn Hk Hi. apply command_ns_hashed; [exact Hn | exact Hi |].
-  pose proof C12_ns_fields_regenerated as H. unfold ns_fields_ok in H. apply andb_prop in H. destruct H as [H _].
-  rewrite forallb_forall in H. exact (H k Hk).
-Qed.
+Proof. exact declared_verbs_hashed. Qed.
 Print Assumptions C12_declared_verbs.
 
 (* and a command member whose name is no namespace-bearing member of a MongoDB command is never changed by the flag *)
 Theorem C12_only_namespace_members : forall k, key_in k ns_sanctioned = false -> key_in k ns_fields = false.
-Proof.
-  intros k Hk. destruct (key_in k ns_fields) eqn:E; [|reflexivity]. exfalso.
-  pose proof C12_ns_fields_regenerated as H. unfold ns_fields_ok in H. apply andb_prop in H. destruct H as [_ H].
-  rewrite forallb_forall in H. unfold key_in in E. apply existsb_exists in E. destruct E as (x & Hx & Ex).
-  apply String.eqb_eq in Ex. subst x. rewrite (H k Hx) in Hk. discriminate.
-Qed.
+Proof. exact ns_fields_sanctioned. Qed.
 Print Assumptions C12_only_namespace_members.
 
 (* Namespace-typed stage arguments: the string form and the {db, coll} document form *)
